@@ -36,7 +36,8 @@ QELIB = {
     's': (0, 1, lambda: S), 'sdg': (0, 1, lambda: S.conj().T), 't': (0, 1, lambda: T), 'tdg': (0, 1, lambda: T.conj().T),
     'sx': (0, 1, lambda: SX), 'sxdg': (0, 1, lambda: SX.conj().T),
     'rx': (1, 1, lambda a: _rot(X, a)), 'ry': (1, 1, lambda a: _rot(Y, a)), 'rz': (1, 1, lambda a: _rot(Z, a)),
-    'u3': (3, 1, None), 'u2': (2, 1, None), 'u1': (1, 1, lambda a: np.diag([1, np.exp(1j * a)])),
+    'u3': (3, 1, lambda t, p, l: np.array([[np.cos(t / 2), -np.exp(1j * l) * np.sin(t / 2)], [np.exp(1j * p) * np.sin(t / 2), np.exp(1j * (p + l)) * np.cos(t / 2)]])),
+    'u2': (2, 1, lambda p, l: np.array([[1, -np.exp(1j * l)], [np.exp(1j * p), np.exp(1j * (p + l))]]) / np.sqrt(2)), 'u1': (1, 1, lambda a: np.diag([1, np.exp(1j * a)])),
     'cx': (0, 2, lambda: c03._controlled(X)), 'cz': (0, 2, lambda: c03._controlled(Z)), 'cy': (0, 2, lambda: c03._controlled(Y)),
     'ch': (0, 2, lambda: c03._controlled(H)), 'swap': (0, 2, lambda: c03.SWAPM),
     'ccx': (0, 3, lambda: c03._controlled(X, 2)), 'cswap': (0, 3, lambda: c03._controlled(c03.SWAPM)),
@@ -410,3 +411,47 @@ def run(ctx):
         a1 = sorted(ast.unparse(a) + str(p) for a, p in dominating_atoms(par, xs[1], mq))
         ok = a0 == a1 and any('invert' in a or 'inv' in a for a in a0)
     ctx.ob('C19.c', f'{mg.qual}._qasm_:invert-mask-symmetric', ok, '' if ok else 'the x flips for inverted measurement bits are not emitted under the same test before and after the measure', mg.mod.rel, mq.lineno)
+    _entry_point_rules(ctx, repo)
+
+
+def _entry_point_rules(ctx, repo):
+    """C19.e / C19.a(QasmUGate)"""
+    ctx.decided.append('C19.e every QASM entry point of a circuit (to_qasm, save_qasm, _to_qasm_output) uses each of its parameters - a qubit order, precision or header that is '
+                       'accepted but not handed on silently produces the default; QasmUGate (the fallback every unknown one-qubit unitary goes through) emits its own angles')
+    ctx.rule('C19.e', 'entry points hand on their arguments: each parameter of AbstractCircuit.to_qasm / save_qasm / _to_qasm_output and of QasmOutput.__init__ is read in the body', floor=12, style='EFF')
+    ac = repo.cls('cirq.circuits.circuit.AbstractCircuit')
+    qo = repo.cls('cirq.circuits.qasm_output.QasmOutput')
+    for ci, mn in ((ac, 'to_qasm'), (ac, 'save_qasm'), (ac, '_to_qasm_output'), (qo, '__init__')):
+        fn = ci.methods.get(mn)
+        if fn is None:
+            raise AnalysisError(f'{ci.qual}.{mn} vanished')
+        used = {n.id for st in fn.body for n in ast.walk(st) if isinstance(n, ast.Name)}
+        for a in fn.args.args[1:] + fn.args.kwonlyargs:
+            ok = a.arg in used
+            ctx.ob('C19.e', f'{ci.qual}.{mn}:{a.arg}', ok, '' if ok else f'{mn} accepts `{a.arg}` and never looks at it: the written program uses the default instead of what the caller asked for',
+                   ci.mod.rel, fn.lineno)
+    # QasmUGate: u3(theta, phi, lmda) in half turns
+    ug = repo.cls('cirq.circuits.qasm_output.QasmUGate')
+    fn = ug.methods.get('_qasm_')
+    if fn is None:
+        raise AnalysisError('QasmUGate._qasm_ vanished')
+
+    def u3(t, p, l):
+        t, p, l = np.pi * t, np.pi * p, np.pi * l
+        return np.array([[np.cos(t / 2), -np.exp(1j * l) * np.sin(t / 2)], [np.exp(1j * p) * np.sin(t / 2), np.exp(1j * (p + l)) * np.cos(t / 2)]])
+    bad = None
+    for t, p, l in ((0.3, 0.2, 0.1), (0, 0.4, 0.3), (0, 0, 0.5), (1, 0.25, 0), (0, 1.5, 0.5), (0.5, 0, 0), (0, 0.7, 0)):
+        try:
+            text = _emit(fn, 1, 0, 1, extra_self={'theta': t, 'phi': p, 'lmda': l})
+        except (fdx.Unsupported, fdx.Raised) as ex:
+            raise AnalysisError(f'cannot interpret QasmUGate._qasm_: {ex}')
+        try:
+            v = _qasm_unitary(text, 1)
+        except ValueError as ex:
+            bad = bad or f'(theta, phi, lmda)=({t},{p},{l}): {ex}'
+            continue
+        u = u3(t, p, l)
+        ov = abs(np.trace(u.conj().T @ v)) / 2
+        if abs(ov - 1) > 1e-9:
+            bad = bad or f'QasmUGate(theta={t}, phi={p}, lmda={l}) is written as `{text.strip()}`, which is a different rotation (overlap {ov:.4f})'
+    ctx.ob('C19.a', f'{ug.qual}._qasm_', bad is None, bad or '', ug.mod.rel, fn.lineno)
